@@ -85,6 +85,30 @@ CLAIMED = {
         note=CORR + "Partial: aliasing, package-level caches and data races are facts about the Go heap that an immutable functional "
              "model cannot express; they are sampled under -race.", design="5/C15",
         technique="Coq proof (state independence of the model) + race-detector differential runs"),
+    "C11": dict(
+        text="Theorems C11_flushed_displayrtcm3 / C11_flushed_rtcmfilter / C11_no_deadlock (axiom-free) over a two-process network "
+             "(main: send every message on a bounded channel, close it, wait for the writer iff the generated fact waits_<app> "
+             "says the source does, return; writer: receive, hold the message for an arbitrary latency, write, signal at close) "
+             "under the interleaving semantics of Net.v: in EVERY reachable configuration of EVERY schedule, for every channel "
+             "capacity >= 1, writer latency and message list, 'main has returned' implies 'the writer has written exactly the "
+             "messages in order'; every final configuration has both processes finished (no deadlock). The wait flag is "
+             "regenerated from the source on every run by genfacts (a bounded or missing wait gives false and the theorem no longer "
+             "builds); C11_unrepaired_witness exhibits the losing schedule for the code before its repair. Oracle: the real "
+             "HandleMessages entry points with blocking writers (0-20 ms and 1.2 s per call): bytes held by the writer at return.",
+        note=CORR + "The network abstracts the framing stages (their determinacy is C09's subject) into the message list; the "
+             "tie of the protocol shape to the source is the genfacts pattern check plus the oracle runs. Found and fixed: both "
+             "applications returned without waiting (known_findings.txt).", design="5/C11",
+        technique="Coq proof (invariant over all interleavings of a channel network) + source fact + blocking-writer oracle"),
+    "C16": dict(
+        text="Theorems C16_logger / C16_no_deadlock (axiom-free), same network with pass-through enabled: main writes each block to "
+             "its own output before handing a copy to the recorder, closes the channel at end of input and waits (fact "
+             "waits_rtcmlogger regenerated from the source); in every reachable configuration in which main has returned, the "
+             "pass-through output and the record both equal the input block list, for all capacities, latencies and schedules. "
+             "Oracle: the built rtcmlogger binary on empty/short/long/binary inputs with many stdin chunkings and pauses; stdout "
+             "and the day's record file compared byte for byte with the input after exit.",
+        note=CORR + "Blocks are abstract values; that the copy loop hands over the bytes it read (not an aliased buffer) is "
+             "observed by the oracle only. Found and fixed: the recorder was not awaited at end of input (known_findings.txt).",
+        design="5/C16", technique="Coq proof (invariant over all interleavings) + source fact + binary-level oracle"),
     "C17": dict(
         text="Theorem C17_any_start (axiom-free): as C06 but the start time may lie anywhere in the constellation week of the first "
              "observation, before or after it. Correspondence as C06 with first observations at the week start, at its end and "
